@@ -103,4 +103,27 @@ pub fn vx_collect_pathbuf<'a, 'b>(it: core::slice::Iter<'b, Comp<'a>>) -> (r: st
     ensures pb_comps(&r) == it.remaining().map_values(|c: &Comp<'a>| *c)
 { it.collect() }
 
+pub assume_specification<'a>[ <std::path::Component<'a> as core::cmp::PartialEq>::eq ](a: &Comp<'a>, b: &Comp<'a>) -> (r: bool)
+    ensures r == (*a == *b);
+
+// shim for `v.extend(it.by_ref())` (by_ref is a provided Iterator method, which assume_specification cannot reach)
+#[verifier::external_body]
+pub fn vx_extend_rest<'a>(v: &mut Vec<Comp<'a>>, it: &mut std::path::Components<'a>)
+    requires (*old(it)).obeys_prophetic_iter_laws()
+    ensures
+        (*final(v))@ == (*old(v))@ + (*old(it)).remaining(),
+        (*final(it)).remaining().len() == 0,
+        (*final(it)).obeys_prophetic_iter_laws(),
+{ v.extend(it.by_ref()) }
+
+// shim for `comps.iter().map(|c| c.as_os_str()).collect::<PathBuf>()`; trusted: for `..`s followed by normal
+// components the collected path has exactly these components
+#[verifier::external_body]
+pub fn vx_comps_to_pathbuf<'a>(comps: &Vec<Comp<'a>>) -> (r: std::path::PathBuf)
+    ensures comps_roundtrip(comps@) ==> pb_comps(&r) == comps@
+{ comps.iter().map(|c| c.as_os_str()).collect() }
+pub open spec fn comps_roundtrip(s: Seq<Comp>) -> bool {
+    forall|k: int| 0 <= k < s.len() ==> (#[trigger] s[k] is Normal || s[k] is ParentDir)
+}
+
 } // verus!
